@@ -628,6 +628,9 @@ def run_unit(unit):
         layouts.append([("dup", "int", i == 0) for i in range(width)])
         layouts.append([(["x y", "sum", "1a", "", "Nm"][i % 5], "int", False) for i in range(width)])
         layouts.append([([7, (1, 2), 2.5, "k", -1][i % 5], "int", False) for i in range(width)])      # names that are not strings
+        # long names (a survey question as column name): 40 / 49 / 80 / 200 characters, two of them alike in their first 47
+        longs = ["q" * 40, "how_satisfied_are_you_with_the_delivery_of_order_" + "a", "how_satisfied_are_you_with_the_delivery_of_order_" + "b", "n" * 80, "z" * 200]
+        layouts.append([(longs[i % 5] + (str(i) if i >= 5 else ""), "int", False) for i in range(width)])
         for odd in range(width):
             for okind, onull in (("str", False), ("int", True), ("float", False)):
                 lay = [(base_names[i], "int", False) for i in range(width)]
